@@ -7,14 +7,18 @@
            regressed formula has in s the value the formula has in the successor state.  Route: [gamma_B] (what _gamma
            evaluates to: some effect on this fluent expression fires with the polarity of the literal),
            [fired_ground] / [succ_bool_fluent] (what the documented step does to one ground Boolean fluent: add-after-
-           delete = the disjunction of the fired values), [regress_fluent], induction on the formula. *)
+           delete = the disjunction of the fired values), [regress_fluent], induction on the formula.
+   PART 3  plan level for `always` constraints ([tcr_always_plan]): the compiled action's added preconditions hold before a
+           step iff every always body holds after it ([added_iff_AH], from the regression lemma [K1], the `R == phi`
+           shortcut and the relevance filter [K2] / [regress_irrelevant]); the compiled step is the original step
+           guarded by that ([step_compiled]); induction on the plan ([run_compiled]); the rebuilt goal ([goals_same]). *)
 From Coq Require Import List ZArith NArith QArith Qcanon Bool Lia.
 Import ListNotations.
 Require Import UPV.Core.Expr UPV.Core.Eval UPV.Core.Interp UPV.Planning.Problem UPV.Planning.Sem.
 Require Import UPV.Proofs.Eval_lemmas UPV.Proofs.Sem_proofs UPV.Proofs.Step_proofs.
 Require Import UPV.Compilers.Variants UPV.Compilers.LayerA_Defs UPV.Compilers.LayerA_Quant.
 Require Import UPV.Compilers.SimCheck UPV.Compilers.LayerA_Tcr.
-Require Import UPV.Proofs.LayerA_base.
+Require Import UPV.Compilers.LayerA_Inv UPV.Proofs.LayerA_base UPV.Proofs.LayerA_Quant_proofs UPV.Proofs.LayerA_Inv_proofs.
 Local Open Scope nat_scope.
 
 (* ================================================================== PART 1: the abstract monitor decides PDDL3 *)
@@ -452,3 +456,348 @@ Proof.
   - unfold holds. rewrite H1, H2. reflexivity.
   - unfold isB. rewrite H2. reflexivity.
 Qed.
+
+(* ================================================================== PART 3: plan level, `always` constraints *)
+Lemma leqb_eq l l' : list_expr_eqb l l' = true <-> l = l'.
+Proof. apply list_expr_eqb_eq. apply Forall_forall. intros x _ y. apply expr_eqb_eq. Qed.
+
+Lemma leqb_sym l l' : list_expr_eqb l l' = list_expr_eqb l' l.
+Proof.
+  destruct (list_expr_eqb l l') eqn:E1, (list_expr_eqb l' l) eqn:E2; try reflexivity.
+  - apply leqb_eq in E1. subst. assert (H : list_expr_eqb l' l' = true) by (apply leqb_eq; reflexivity). congruence.
+  - apply leqb_eq in E2. subst. assert (H : list_expr_eqb l l = true) by (apply leqb_eq; reflexivity). congruence.
+Qed.
+
+(* ---- an action none of whose effects is on a fluent expression of phi: the regression changes nothing *)
+Lemma gamma_go_none f args pos : forall effs acc,
+  (forall e, In e effs -> same_fluent f args e = false) -> gamma_go f args pos effs acc = mkOr acc.
+Proof.
+  induction effs as [|e r IH]; intros acc H; [reflexivity|]. cbn [gamma_go].
+  rewrite (H e (or_introl eq_refl)). cbn [andb].
+  assert (Hr : forall e', In e' r -> same_fluent f args e' = false) by (intros e' He'; apply H; right; exact He').
+  destruct (negb (e_isbool e)); [apply IH, Hr|]. destruct (bconst (e_val e)); apply IH, Hr.
+Qed.
+
+Lemma regress_irrelevant I effs phi :
+  (forall e fa, In e effs -> In fa (fluent_exps phi) -> same_fluent (fst fa) (snd fa) e = false) ->
+  gform phi = true -> forall b, B I phi b -> B I (regress effs phi) b.
+Proof.
+  induction phi using expr_ind'; intros Hirr Hg bb HB; try discriminate.
+  - exact HB.
+  - cbn [regress]. unfold gamma_subst, gamma.
+    assert (Hn : forall e, In e effs -> same_fluent f args e = false)
+      by (intros e He; apply (Hirr e (f, args) He); cbn [fluent_exps]; left; reflexivity).
+    rewrite !gamma_go_none by exact Hn. cbn [mkOr mkNot].
+    pose proof (B_mkAnd I [EFluent f args; ENot (EBool false)] [bb; true]) as G1.
+    assert (F1 : Forall2 (B I) [EFluent f args; ENot (EBool false)] [bb; true])
+      by (constructor; [exact HB | constructor; [reflexivity | constructor]]).
+    specialize (G1 F1). cbn [forallb] in G1. rewrite andb_true_r in G1.
+    pose proof (B_mkOr I [EBool false; mkAnd [EFluent f args; ENot (EBool false)]] [false; bb]) as G2.
+    assert (F2 : Forall2 (B I) [EBool false; mkAnd [EFluent f args; ENot (EBool false)]] [false; bb])
+      by (constructor; [reflexivity | constructor; [exact G1 | constructor]]).
+    specialize (G2 F2). cbn [existsb] in G2. rewrite orb_false_r in G2. exact G2.
+  - cbn [regress gform] in *. unfold B in HB. rewrite eval_EAnd in HB.
+    destruct (ebools false I l) as [bs|] eqn:Eb; [|discriminate]. inversion HB; subst bb.
+    apply B_mkAnd. clear HB. revert bs Eb. rewrite forallb_forall in Hg.
+    induction l as [|x l IHl]; intros bs Eb; cbn [ebools] in Eb.
+    + inversion Eb. constructor.
+    + destruct (as_bool (eval false x I)) as [bx|] eqn:Ex; [|discriminate].
+      destruct (ebools false I l) as [bs'|] eqn:Eb'; [|discriminate]. inversion Eb; subst bs. cbn [map].
+      inversion H as [|? ? Hx Hl]; subst. constructor.
+      * apply Hx; [| apply Hg; left; reflexivity |].
+        -- intros e fa He Hfa. apply Hirr; [exact He|]. cbn [fluent_exps flat_map]. apply in_or_app. left; exact Hfa.
+        -- unfold B. destruct (eval false x I) as [[c| |]|]; try discriminate. cbn [as_bool] in Ex. inversion Ex. reflexivity.
+      * apply IHl; [exact Hl | | | reflexivity].
+        -- intros e fa He Hfa. apply Hirr; [exact He|]. cbn [fluent_exps flat_map] in *. apply in_or_app. right; exact Hfa.
+        -- intros y Hy. apply Hg. right; exact Hy.
+  - cbn [regress gform] in *. unfold B in HB. rewrite eval_EOr in HB.
+    destruct (ebools false I l) as [bs|] eqn:Eb; [|discriminate]. inversion HB; subst bb.
+    apply B_mkOr. clear HB. revert bs Eb. rewrite forallb_forall in Hg.
+    induction l as [|x l IHl]; intros bs Eb; cbn [ebools] in Eb.
+    + inversion Eb. constructor.
+    + destruct (as_bool (eval false x I)) as [bx|] eqn:Ex; [|discriminate].
+      destruct (ebools false I l) as [bs'|] eqn:Eb'; [|discriminate]. inversion Eb; subst bs. cbn [map].
+      inversion H as [|? ? Hx Hl]; subst. constructor.
+      * apply Hx; [| apply Hg; left; reflexivity |].
+        -- intros e fa He Hfa. apply Hirr; [exact He|]. cbn [fluent_exps flat_map]. apply in_or_app. left; exact Hfa.
+        -- unfold B. destruct (eval false x I) as [[c| |]|]; try discriminate. cbn [as_bool] in Ex. inversion Ex. reflexivity.
+      * apply IHl; [exact Hl | | | reflexivity].
+        -- intros e fa He Hfa. apply Hirr; [exact He|]. cbn [fluent_exps flat_map] in *. apply in_or_app. right; exact Hfa.
+        -- intros y Hy. apply Hg. right; exact Hy.
+  - cbn [regress gform fluent_exps] in *. unfold B in HB. rewrite eval_ENot in HB.
+    destruct (eval false phi I) as [[c| |]|] eqn:Ex; try discriminate. cbn [as_bool] in HB. inversion HB; subst bb.
+    apply B_mkNot. apply IHphi; [exact Hirr | exact Hg | exact Ex].
+Qed.
+
+(* ---- preconditions added one by one *)
+Lemma all_hold_add_pre I acc p : all_hold false I (add_pre acc p) = all_hold false I acc && holds false I p.
+Proof.
+  unfold add_pre. destruct (is_true p) eqn:Et; cbn [orb].
+  - rewrite (holds_true false I p Et), andb_true_r. reflexivity.
+  - destruct (existsb (expr_eqb p) acc) eqn:Ee.
+    + apply existsb_exists in Ee. destruct Ee as [q [Hq Eq]]. apply expr_eqb_eq in Eq. subst q.
+      destruct (all_hold false I acc) eqn:Ea; [|reflexivity]. rewrite (all_hold_In false I acc p Ea Hq). reflexivity.
+    + unfold all_hold. rewrite forallb_app. cbn [forallb]. rewrite andb_true_r. reflexivity.
+Qed.
+
+Lemma all_hold_fold_add_pre I l : forall acc,
+  all_hold false I (fold_left add_pre l acc) = all_hold false I acc && forallb (holds false I) l.
+Proof.
+  induction l as [|p l IH]; intros acc; cbn [fold_left forallb]; [rewrite andb_true_r; reflexivity|].
+  rewrite IH, all_hold_add_pre, andb_assoc. reflexivity.
+Qed.
+
+Lemma dedup_acc_in x : forall l acc, In x (dedup_acc acc l) <-> In x acc \/ In x l.
+Proof.
+  induction l as [|y l IH]; intros acc; cbn [dedup_acc]; [cbn [In]; tauto|].
+  destruct (existsb (expr_eqb y) acc) eqn:E; rewrite IH.
+  - apply existsb_exists in E. destruct E as [z [Hz Ez]]. apply expr_eqb_eq in Ez. subst z.
+    cbn [In]. split; [tauto|]. intros [H|[H|H]]; auto. subst. auto.
+  - rewrite in_app_iff. cbn [In]. tauto.
+Qed.
+
+Section AlwaysPlan.
+  Variable smp sub0 : expr -> expr.
+  Variable mon : nat -> N.
+  Variable C : list expr.
+  Variable P : problem.
+  Variable G : state -> Prop.
+
+  Hypothesis Hsmp : smp_exact smp.
+  Hypothesis Huniq : unique_ids P.
+  Hypothesis Hgp : gproblem P = true.
+  Hypothesis HC : always_only P C = true.
+  (* G: a set of states closed under the steps of the original problem on which the regression lemma applies *)
+  Hypothesis Gstep : forall s aid a args t, G s -> lookup_action P aid = Some a -> spec_step false P s a args = Some t -> G t.
+  Hypothesis Greg : forall s aid a, G s -> lookup_action P aid = Some a -> reg_ok P s a = true.
+  Hypothesis Gdef : forall s phi, G s -> In (EAlways phi) C -> gdef s phi = true.
+
+  Lemma C_always c : In c C -> exists phi, c = EAlways phi /\ gform phi = true /\ gbool P phi = true.
+  Proof.
+    intros Hc. unfold always_only in HC. rewrite forallb_forall in HC. specialize (HC c Hc).
+    destruct c; try discriminate. apply andb_true_iff in HC. eauto.
+  Qed.
+
+  Lemma atoms_none : forall k cs, (forall c, In c cs -> is_always c = true) -> atoms_from k cs = [].
+  Proof.
+    intros k cs. revert k. induction cs as [|c r IH]; intros k H; [reflexivity|]. cbn [atoms_from].
+    rewrite (H c (or_introl eq_refl)). apply IH. intros c' Hc'. apply H. right; exact Hc'.
+  Qed.
+
+  Lemma C_atoms : atoms_from 0 C = [].
+  Proof. apply atoms_none. intros c Hc. destruct (C_always c Hc) as [phi [-> _]]. reflexivity. Qed.
+
+  (* the preconditions the loop adds for a list of always constraints *)
+  Definition added (a : action) (cs : list expr) : list expr :=
+    flat_map (fun c => match c with
+                       | EAlways phi => if expr_eqb (R smp a phi) phi then [] else [R smp a phi]
+                       | _ => []
+                       end) cs.
+
+  Lemma handle_all_always a : forall cs pres, (forall c, In c cs -> In c C) ->
+    handle_all smp mon C a cs pres [] = (fold_left add_pre (added a cs) pres, []).
+  Proof.
+    induction cs as [|c r IH]; intros pres H; [reflexivity|]. cbn [handle_all].
+    destruct (C_always c (H c (or_introl eq_refl))) as [phi [-> _]]. cbn [handle h_always].
+    unfold h_always. cbn [added flat_map].
+    assert (Hr : forall c', In c' r -> In c' C) by (intros c' Hc'; apply H; right; exact Hc').
+    destruct (expr_eqb (R smp a phi) phi); cbn [app fold_left]; apply IH, Hr.
+  Qed.
+
+  Lemma relevant_in a c : In c (relevant_cs C a) <-> In c C /\ exists e, In e (a_effs a) /\ mentions c e = true.
+  Proof.
+    unfold relevant_cs. rewrite dedup_acc_in, in_flat_map. cbn [In]. split.
+    - intros [[]|[e [He Hc]]]. apply filter_In in Hc. destruct Hc as [Hc Hm]. split; [exact Hc | exists e; auto].
+    - intros [Hc [e [He Hm]]]. right. exists e. split; [exact He | apply filter_In; auto].
+  Qed.
+
+  Section Step.
+    Variables (s t : state) (aid : N) (a : action) (args : list value).
+    Hypothesis Gs : G s.
+    Hypothesis Hlk : lookup_action P aid = Some a.
+    Hypothesis Hst : spec_step false P s a args = Some t.
+    Hypothesis Hs : AH P C s = true.
+
+    Lemma a_ground : gaction P a = true.
+    Proof.
+      unfold gproblem in Hgp. rewrite forallb_forall in Hgp. unfold lookup_action in Hlk.
+      apply lookupN_In in Hlk. apply (Hgp (aid, a) Hlk).
+    Qed.
+
+    Lemma a_params_nil : a_params a = [].
+    Proof. pose proof a_ground as H. unfold gaction in H. apply andb_true_iff in H. destruct H as [H _]. destruct (a_params a); [reflexivity | discriminate]. Qed.
+
+    (* K1: the simplified regression, read before the step, is phi after it *)
+    Lemma K1 phi : In (EAlways phi) C ->
+      holds false (mk_interp P s []) (R smp a phi) = holds false (mk_interp P t []) phi.
+    Proof.
+      intros Hc. destruct (C_always _ Hc) as [phi' [E [Hg Hb]]]. inversion E; subst phi'.
+      destruct (regression_step P s a args t phi a_ground (Greg s aid a Gs Hlk) Hst Hg Hb (Gdef s phi Gs Hc)) as (_ & H & _).
+      unfold R, holds. rewrite Hsmp. exact H.
+    Qed.
+
+    (* K2: a constraint no effect of the action touches keeps its value *)
+    Lemma K2 phi : In (EAlways phi) C -> (forall e, In e (a_effs a) -> mentions (EAlways phi) e = false) ->
+      holds false (mk_interp P t []) phi = holds false (mk_interp P s []) phi.
+    Proof.
+      intros Hc Hm. destruct (C_always _ Hc) as [phi' [E [Hg Hb]]]. inversion E; subst phi'.
+      destruct (regression_step P s a args t phi a_ground (Greg s aid a Gs Hlk) Hst Hg Hb (Gdef s phi Gs Hc)) as (Ev & H & _).
+      rewrite <- H. unfold holds.
+      assert (Hd : exists b, B (mk_interp P s []) phi b).
+      { (* phi is defined in s: from gdef, through the regression lemma read at the identity is not available; use Ev *)
+        clear H. revert Hg Hb. generalize (Gdef s phi Gs Hc). clear. intros Hd Hg Hb.
+        induction phi using expr_ind'; try discriminate.
+        - exists b. reflexivity.
+        - cbn [gform gdef] in *. destruct (s f (vals_of args)) as [[sf| |]|] eqn:Es; try discriminate. exists sf.
+          unfold B. rewrite eval_EFluent, (evals_oargs false _ _ Hg). exact Es.
+        - cbn [gform gdef gbool] in *. rewrite forallb_forall in Hg, Hb, Hd.
+          assert (HF : exists bs, Forall2 (B (mk_interp P s [])) l bs).
+          { induction l as [|x l IHl]; [exists []; constructor|]. inversion H as [|? ? Hx Hl]; subst.
+            destruct (Hx (Hd x (or_introl eq_refl)) (Hg x (or_introl eq_refl)) (Hb x (or_introl eq_refl))) as [b Bx].
+            destruct (IHl Hl) as [bs Bs]; try (intros y Hy; auto using in_cons). exists (b :: bs). constructor; assumption. }
+          destruct HF as [bs Bs]. eexists. apply B_EAnd, Bs.
+        - cbn [gform gdef gbool] in *. rewrite forallb_forall in Hg, Hb, Hd.
+          assert (HF : exists bs, Forall2 (B (mk_interp P s [])) l bs).
+          { induction l as [|x l IHl]; [exists []; constructor|]. inversion H as [|? ? Hx Hl]; subst.
+            destruct (Hx (Hd x (or_introl eq_refl)) (Hg x (or_introl eq_refl)) (Hb x (or_introl eq_refl))) as [b Bx].
+            destruct (IHl Hl) as [bs Bs]; try (intros y Hy; auto using in_cons). exists (b :: bs). constructor; assumption. }
+          destruct HF as [bs Bs]. eexists. apply B_EOr, Bs.
+        - cbn [gform gdef gbool] in *. destruct (IHphi Hd Hg Hb) as [b Bx]. eexists. apply B_ENot, Bx. }
+      destruct Hd as [b Hb0].
+      assert (Hr : B (mk_interp P s []) (regress (a_effs a) phi) b).
+      { apply regress_irrelevant; [|exact Hg | exact Hb0].
+        intros e fa He Hfa. specialize (Hm e He). unfold mentions in Hm. cbn [fluent_exps] in Hm.
+        destruct (same_fluent (fst fa) (snd fa) e) eqn:Es; [|reflexivity].
+        exfalso. assert (X : existsb (fun fa0 => (fst fa0 =? e_fl e)%N && list_expr_eqb (snd fa0) (e_args e)) (fluent_exps phi) = true).
+        { apply existsb_exists. exists fa. split; [exact Hfa|]. unfold same_fluent in Es. rewrite N.eqb_sym, leqb_sym. exact Es. }
+        congruence. }
+      unfold B in Hr, Hb0. rewrite Hr, Hb0. reflexivity.
+    Qed.
+
+    (* the preconditions added to the action hold before the step iff every always body holds after it *)
+    Lemma added_iff_AH :
+      forallb (holds false (mk_interp P s [])) (added a (relevant_cs C a)) = AH P C t.
+    Proof.
+      apply eq_true_iff_eq. unfold AH. rewrite !forallb_forall. split.
+      - intros H c Hc. destruct (C_always c Hc) as [phi [-> _]].
+        destruct (existsb (fun e => mentions (EAlways phi) e) (a_effs a)) eqn:Em.
+        + apply existsb_exists in Em. destruct Em as [e [He Hm]].
+          assert (Hrel : In (EAlways phi) (relevant_cs C a)) by (apply relevant_in; split; [exact Hc | exists e; auto]).
+          rewrite <- (K1 phi Hc). destruct (expr_eqb (R smp a phi) phi) eqn:Er.
+          * apply expr_eqb_eq in Er. rewrite Er. unfold AH in Hs. rewrite forallb_forall in Hs. apply (Hs _ Hc).
+          * apply H. unfold added. apply in_flat_map. exists (EAlways phi). split; [exact Hrel|]. rewrite Er. left; reflexivity.
+        + rewrite (K2 phi Hc).
+          * unfold AH in Hs. rewrite forallb_forall in Hs. apply (Hs _ Hc).
+          * intros e He. destruct (mentions (EAlways phi) e) eqn:Em'; [|reflexivity].
+            assert (X : existsb (fun e => mentions (EAlways phi) e) (a_effs a) = true) by (apply existsb_exists; exists e; auto).
+            congruence.
+      - intros H x Hx. unfold added in Hx. apply in_flat_map in Hx. destruct Hx as [c [Hc Hx]].
+        apply relevant_in in Hc. destruct Hc as [Hc _]. destruct (C_always c Hc) as [phi [-> _]].
+        destruct (expr_eqb (R smp a phi) phi); [destruct Hx|]. destruct Hx as [<-|[]].
+        rewrite (K1 phi Hc). apply (H _ Hc).
+    Qed.
+  End Step.
+
+  (* ---- the compiled problem *)
+  Variable P' : problem.
+  Hypothesis Hcomp : tcr_compile smp sub0 mon C P = Some P'.
+
+  Lemma P'_eq : p_objs P' = p_objs P /\ p_ifun P' = p_ifun P /\ p_fluents P' = p_fluents P /\ p_invs P' = p_invs P /\
+    p_actions P' = map_actions (tcr_action smp mon C) (p_actions P) /\
+    p_goals P' = add_goals [smp (mkAnd (p_goals P ++ [EBool true]))].
+  Proof.
+    unfold tcr_compile in Hcomp. destruct (existsb (refused smp sub0) C); [discriminate|]. inversion Hcomp; subst P'. cbn.
+    unfold mon_fluents, n_atoms, landmark_goal. rewrite C_atoms. cbn [length seq map]. rewrite app_nil_r.
+    assert (E : filter is_landmark C = []).
+    { clear -HC. unfold always_only in HC. induction C as [|c r IH]; [reflexivity|]. cbn [forallb] in HC. apply andb_true_iff in HC.
+      destruct HC as [H1 H2]. cbn [filter]. destruct c; try discriminate. cbn [is_landmark]. apply IH, H2. }
+    rewrite E. repeat split; reflexivity.
+  Qed.
+
+  Lemma goals_same s : goals_hold false P' s = goals_hold false P s.
+  Proof.
+    destruct P'_eq as (Ho & Hi & Hf & Hv & _ & Hg). unfold goals_hold. rewrite (mk_interp_same P P' Ho Hi), Hg.
+    unfold add_goals. cbn [filter].
+    assert (E : holds false (mk_interp P s []) (smp (mkAnd (p_goals P ++ [EBool true]))) = all_hold false (mk_interp P s []) (p_goals P)).
+    { unfold holds at 1. rewrite Hsmp. fold (holds false (mk_interp P s []) (mkAnd (p_goals P ++ [EBool true]))).
+      rewrite holds_mkAnd. unfold all_hold. rewrite forallb_app. cbn. rewrite andb_true_r. reflexivity. }
+    destruct (is_true (smp (mkAnd (p_goals P ++ [EBool true])))) eqn:Et; cbn [negb].
+    - rewrite <- E, (holds_true false _ _ Et). reflexivity.
+    - unfold all_hold at 1. cbn [forallb]. rewrite andb_true_r. exact E.
+  Qed.
+
+  Lemma step_compiled s aid a args : G s -> AH P C s = true -> lookup_action P aid = Some a ->
+    match lookup_action P' aid with
+    | Some a' => spec_step false P' s a' args
+    | None => None
+    end =
+    match spec_step false P s a args with Some t => if AH P C t then Some t else None | None => None end.
+  Proof.
+    intros Gs Hs Hlk. destruct P'_eq as (Ho & Hi & Hf & Hv & Ha & _).
+    unfold lookup_action in *. rewrite Ha, (lookup_map_actions _ _ _ Huniq), Hlk.
+    unfold tcr_action.
+    rewrite (handle_all_always a (relevant_cs C a) (a_pre a)) by (intros c Hc; apply relevant_in in Hc; tauto).
+    set (pres := fold_left add_pre (added a (relevant_cs C a)) (a_pre a)).
+    assert (Hp : a_params a = []) by (apply (a_params_nil aid a); exact Hlk).
+    set (I := mk_interp P s (zip_params (a_params a) args)).
+    assert (EI : I = mk_interp P s []) by (unfold I; rewrite Hp; reflexivity).
+    assert (Hpre : all_hold false I pres = all_hold false I (a_pre a) && forallb (holds false I) (added a (relevant_cs C a)))
+      by apply all_hold_fold_add_pre.
+    destruct (spec_step false P s a args) as [t|] eqn:Est.
+    - pose proof (added_iff_AH s t aid a args Gs Hlk Est Hs) as HX. rewrite <- EI in HX.
+      assert (Hpa : all_hold false I (a_pre a) = true).
+      { rewrite spec_step_eq in Est. fold I in Est. destruct (all_hold false I (a_pre a)); [reflexivity | discriminate]. }
+      destruct (AH P C t) eqn:EA.
+      + assert (Hnf : existsb is_false pres = false).
+        { destruct (existsb is_false pres) eqn:Ef; [|reflexivity]. apply existsb_exists in Ef. destruct Ef as [x [Hx Fx]].
+          assert (Hh : all_hold false I pres = true) by (rewrite Hpre, Hpa, HX; reflexivity).
+          pose proof (all_hold_In false I pres x Hh Hx) as Hxx. destruct x; try discriminate. destruct b; discriminate. }
+        rewrite Hnf. rewrite <- Est.
+        apply spec_step_cong; auto; cbn [a_params a_pre a_effs].
+        * fold I. rewrite Hpre, Hpa, HX. reflexivity.
+        * rewrite app_nil_r. reflexivity.
+        * intros acts _. apply (invariants_ok_same P P' Ho Hi Hf Hv).
+      + destruct (existsb is_false pres); [reflexivity|].
+        rewrite spec_step_eq. cbn [a_params a_pre a_effs].
+        rewrite (mk_interp_same P P' Ho Hi). fold I. rewrite Hpre, Hpa, HX. reflexivity.
+    - destruct (existsb is_false pres); [reflexivity|].
+      rewrite spec_step_eq in Est |- *. cbn [a_params a_pre a_effs]. rewrite (mk_interp_same P P' Ho Hi). fold I. fold I in Est.
+      rewrite Hpre. destruct (all_hold false I (a_pre a)); cbn [andb negb]; [|reflexivity].
+      destruct (forallb (holds false I) (added a (relevant_cs C a))); cbn [negb]; [|reflexivity].
+      rewrite app_nil_r. cbn [negb] in Est.
+      destruct (fired false I (a_effs a)) as [acts|]; [|reflexivity].
+      assert (E1 : spec_effects_ok P' s acts = spec_effects_ok P s acts)
+        by (unfold spec_effects_ok, spec_fluent, is_bool_fluent; rewrite Hf; reflexivity).
+      assert (E2 : spec_succ P' s acts = spec_succ P s acts)
+        by (unfold spec_succ, spec_fluent, is_bool_fluent; rewrite Hf; reflexivity).
+      rewrite E1, E2, (invariants_ok_same P P' Ho Hi Hf Hv). exact Est.
+  Qed.
+
+  Lemma lookup_none aid : lookup_action P aid = None -> lookup_action P' aid = None.
+  Proof.
+    intros H. destruct P'_eq as (_ & _ & _ & _ & Ha & _). unfold lookup_action in *.
+    rewrite Ha, (lookup_map_actions _ _ _ Huniq), H. reflexivity.
+  Qed.
+
+  Lemma run_compiled pi : forall s, G s -> AH P C s = true ->
+    run P' (spec_step false P') s pi = run_ah P C s pi.
+  Proof.
+    induction pi as [|[aid args] r IH]; intros s Gs Hs; [reflexivity|]. cbn [run run_ah].
+    destruct (lookup_action P aid) as [a|] eqn:Hlk; [|rewrite (lookup_none aid Hlk); reflexivity].
+    pose proof (step_compiled s aid a args Gs Hs Hlk) as E.
+    destruct (spec_step false P s a args) as [t|] eqn:Est.
+    - destruct (AH P C t) eqn:EA.
+      + destruct (lookup_action P' aid) as [a'|]; [|discriminate]. rewrite E. apply IH; [eapply Gstep; eauto | exact EA].
+      + destruct (lookup_action P' aid) as [a'|]; [rewrite E|]; reflexivity.
+    - destruct (lookup_action P' aid) as [a'|]; [rewrite E|]; reflexivity.
+  Qed.
+
+  (* PLAN LEVEL, always constraints: the compiled problem (no constraints left) accepts exactly the plans of the
+     original problem along which every always body holds *)
+  Theorem tcr_always_plan s0 pi : G s0 -> AH P C s0 = true ->
+    valid_plan false P' s0 pi = always_valid P C s0 pi.
+  Proof.
+    intros G0 H0. unfold valid_plan, always_valid. rewrite (run_compiled pi s0 G0 H0).
+    destruct (run_ah P C s0 pi) as [t|]; [apply goals_same | reflexivity].
+  Qed.
+End AlwaysPlan.
